@@ -460,6 +460,21 @@ func runRegistryStress(t *testing.T, name string, seed int64, bw *bufio.Writer) 
 	rng := rand.New(rand.NewSource(seed))
 	status := "ok"
 	done := make(chan struct{})
+	// registrations of one round line up at the hook just before the per-key lookup, so that
+	// the first lookups of a fresh key really happen at the same moment (every other round;
+	// the other rounds run unaligned)
+	var arrived, target atomic.Int32
+	grpctunnel.VerifSetYieldHook(func(tag string) {
+		if tag != "handler.registering" || target.Load() == 0 {
+			return
+		}
+		arrived.Add(1)
+		until := time.Now().Add(2 * time.Millisecond)
+		for arrived.Load() < target.Load() && time.Now().Before(until) {
+			runtime.Gosched()
+		}
+	})
+	defer grpctunnel.VerifSetYieldHook(nil)
 	go func() {
 		defer close(done)
 		defer func() {
@@ -467,9 +482,15 @@ func runRegistryStress(t *testing.T, name string, seed int64, bw *bufio.Writer) 
 				w.logf("PANIC stress %v", p)
 			}
 		}()
-		for round := 0; round < 6; round++ {
+		for round := 0; round < 16; round++ {
 			key := fmt.Sprintf("k%d", round)
 			n := 2 + rng.Intn(3)
+			arrived.Store(0)
+			if round%2 == 0 {
+				target.Store(int32(n))
+			} else {
+				target.Store(0)
+			}
 			base := len(w.tunnels)
 			var wg sync.WaitGroup
 			start := make(chan struct{})
